@@ -260,6 +260,10 @@ def families(tier):
                 for kk in (F(1, 2), F(-1, 4)):
                     shifted = tuple(X.add(v, X.scal(kk, w)) for v in faces[i])
                     sc.append(('faces', 'face-shifted', tuple(faces[:i] + [shifted] + faces[i + 1:])))
+            for i in range(len(faces)):
+                for j in range(len(faces)):
+                    if i != j:
+                        sc.append(('faces', 'face-replaced-by-copy-of-another', tuple(faces[:i] + [faces[j]] + faces[i + 1:])))
             sc.append(('faces', 'single-face', (faces[0],)))
             sc.append(('faces', 'two-faces', (faces[0], faces[1])))
     fams.append(ListFamily('face-sets', sc, chunk=30))
